@@ -359,7 +359,7 @@ RULE_ADDITIONS = {
     'C07': "Large-network job: 129..254 participants in Feldman-VSS-Qual and 24..40 in Joint-Feldman (thresholds 1..3), victims drawn from the last indices half of the time.",
     'C20': "The worker keeps every digest a hasher returned, uncopied, while the hasher is used further (ComputeHash of a longer message, Reset, streamed suffix, continued stream) and serialises them at the end of the operation.",
     'C08': "Plain Feldman VSS: a ninth kind of share, the right residue in the non-canonical encoding x + r, with dealers searched (four cases in five) for a share small enough that x + r fits in 255 bits.",
-    'C01': "Key objects and hashers carry generated histories: the public key is obtained through a generated constructor route (PublicKey(), decoded from a buffer that is then overwritten, one-element aggregate, projective result of RemoveBLSPublicKeys), aggregated keys have inputs with and without cached public keys, KMAC hashers were written to / reset / read before (the reference H(m) comes from a fresh twin), domain tags reach 480 bytes and a one-byte neighbour of the tag must give another signature; the expand-message hasher itself is compared with SP 800-185 KMAC128(tag || suite, 'H2C', m, 128). The hasher errors of Verify are asserted with nil / short / long / malformed signatures as well; the slice returned by Sign is kept uncopied while the key signs and verifies further.",
+    'C01': "Key objects and hashers carry generated histories: the public key is obtained through a generated constructor route (PublicKey(), decoded from a buffer that is then overwritten, one-element aggregate, projective result of RemoveBLSPublicKeys), aggregated keys have inputs with and without cached public keys, KMAC hashers were written to / reset / read before (the reference H(m) comes from a fresh twin), domain tags reach 480 bytes and a one-byte neighbour of the tag must give another signature; the expand-message hasher itself is compared with SP 800-185 KMAC128(tag || suite, 'H2C', m, 128). The hasher errors of Verify are asserted with nil / short / long / malformed signatures as well; the slice returned by Sign is kept uncopied while the key signs and verifies further. Key pairs also come out of other APIs: a key share of BLSThresholdKeyGen and the keys a plain Feldman VSS participant leaves End() with (public part as returned by that API, or recomputed).",
     'C02': 'Keys through generated constructor routes; when the aggregate is the identity (total cancellation is drawn explicitly) an infinity encoding with a stray byte at each of the 47 positions must be rejected. A large-list job puts 15..200 (message, hasher) entries under each of one to three keys, or 15..200 distinct key objects (projective ones among them) under each of one to three messages; the exact sum must be accepted and the sum over the entries beyond the first 64 (16) of each group rejected.',
     'C03': 'A template job combines 0-4 structural entries (wrong-length / nil signature, identity key, malformed, outside G1, identity signature) with one cancelling pair / triple / swapped pair at generated positions (one case in three: the group at the highest indices). Every call on two or more well-formed entries must draw at least 128 bits from crypto/rand.Reader (the coefficients are fresh per call, not a function of the input). Batches of 33..257 entries (sizes around 64, 128, 256) with none to four invalid positions (first, last, generated; cancelling groups included).',
     'C04': 'Input keys through generated constructor routes (projective keys included), private keys with and without cached public keys; lists of 63..300 items around the sizes 64 / 128 / 256 with an identity signature inside. Lists of 15..65 arbitrary E1 points (order-3 points, identity, repeated and negated neighbours next to each other) must sum to the E1 sum of the oracle. A few keys of the long lists are held in projective form or were decoded / re-aggregated.',
@@ -371,8 +371,8 @@ RULE_ADDITIONS = {
     'C13': "SHA-2's documented continuation after ComputeHash is part of the model; every digest handed out is kept uncopied and compared again after the object was used further.",
     'C14': 'States returned by Store() of generators that stay in use are kept uncopied and must still restore to the offset at which they were taken.',
     'C15': 'Raw reads of both PRG read paths are interleaved with the helpers; returned permutations are kept uncopied and compared again later; a deterministic frequency net (seven standard deviations, fixed ChaCha20 stream) runs next to the exact argument, which has to decline any read pattern other than the documented one. The frequency net also counts, for sparse and dense (n, m), how often every element is at every position of SubPermutation / Samples. A call rejected for its sizes must read nothing from the random source.',
-    'C16': 'Identity keys come from eight constructions (constant, decoded, pk + (-pk), removal of a key from itself, of all keys at once and in two steps, public key of the zero aggregate with cold and warm inputs); keys through generated constructor routes; hashers with histories.',
-    'C17': 'Both proofs are also modified together: (p1 + T, p2 - T), (p1 + T, p2 + T), (p1 + T, -(p1 + T)) must be rejected, (-p1, -p2), (c p1, c p2) and (-p1, -pk2) keep the verdict; keys through generated constructor routes; eight identity-key constructions. The non-BLS key is combined with a nil, SHA2, SHA3 or wrong-size KMAC hasher and with truncated proofs: the not-a-BLS-key error is still the documented one.',
+    'C16': 'Identity keys come from eight constructions (constant, decoded, pk + (-pk), removal of a key from itself, of all keys at once and in two steps, public key of the zero aggregate with cold and warm inputs); keys through generated constructor routes; hashers with histories. Key pairs also come out of other APIs: a key share of BLSThresholdKeyGen and the keys a plain Feldman VSS participant leaves End() with (public part as returned by that API, or recomputed).',
+    'C17': 'Both proofs are also modified together: (p1 + T, p2 - T), (p1 + T, p2 + T), (p1 + T, -(p1 + T)) must be rejected, (-p1, -p2), (c p1, c p2) and (-p1, -pk2) keep the verdict; keys through generated constructor routes; eight identity-key constructions. The non-BLS key is combined with a nil, SHA2, SHA3 or wrong-size KMAC hasher and with truncated proofs: the not-a-BLS-key error is still the documented one. Key pairs also come out of other APIs: a key share of BLSThresholdKeyGen and the keys a plain Feldman VSS participant leaves End() with (public part as returned by that API, or recomputed).',
     'C18': 'Goroutines are released through a spin barrier; one case in three is a stampede (every goroutine starts with the same call on the same signer and share buffer); key objects are rebuilt for each of the runs of a program.',
     'C19': "Goroutines are released through a spin barrier; one case in three is a stampede on one call; the signature list handed to batch verification must stay the caller's.",
 }
